@@ -163,9 +163,9 @@ class gre (packet_base):
         self.parsed = True
 
         if self.type == 0x0800:
-            self.next = ipv4.ipv4(raw=raw[o:])
+            self.next = ipv4.ipv4(raw=raw[o:], prev=self)
         elif self.type == 0x6558:
-            self.next = ethernet(raw=raw[o:])
+            self.next = ethernet(raw=raw[o:], prev=self)
         else:
             self.next = raw[o:]
 
